@@ -9,6 +9,7 @@ CONSTANTS
   MaxCredit = 5
   MaxTick = 3
   Limit = 2
+  Defaults = FALSE
 SPECIFICATION Spec
 INVARIANT Emit
 CHECK_DEADLOCK FALSE
